@@ -582,6 +582,23 @@ func (fc *FuncCtx) specialExtern(fr *Frame, st *State, callee *ssa.Function, arg
 		fc.addObl(fr, st, "model", name+" argument is a byte", And(Le(IntLit(0), x), Le(x, IntLit(255))), pos, "unicode case mapping is modelled on bytes only")
 		fc.note(name + " on bytes: 256-entry table generated from Go's unicode package when the engine is built")
 		return Val{T: App(fn, SInt, x)}, true
+	case "fmt.Sprintf":
+		// fmt.Sprintf("%d", n) with an integer n: the decimal representation, an injective function of n
+		// (str_itoa with the inverse str_atoi); every other use is an arbitrary string
+		if len(args) == 2 && args[0].T != nil && args[0].T.Op == "strlit" && args[0].T.Name == "%d" && args[1].T != nil {
+			sl := args[1].T
+			h := fc.p.elemHeap(callee.Signature.Params().At(1).Type().Underlying().(*types.Slice).Elem())
+			el := Select(Select(st.H(fc.p, h), SBase(sl)), Add(SOff(sl), IntLit(0)))
+			if one, ok := SLen(sl).isInt(); ok && one == 1 {
+				if bv, ok := fc.p.boxed[el]; ok && bv.T.Sort == SInt {
+					if b, isB := bv.Typ.Underlying().(*types.Basic); isB && b.Info()&types.IsInteger != 0 {
+						fc.note("fmt.Sprintf(\"%d\", n) is modelled as an injective function of n (decimal representation)")
+						return Val{T: App("str_itoa", SStr, bv.T)}, true
+					}
+				}
+			}
+		}
+		return Val{T: Fresh("sprintf", SStr)}, true
 	case "math.IsNaN":
 		if args[0].T.Sort == SXReal {
 			return Val{T: XIsNaN(args[0].T)}, true
